@@ -6,8 +6,8 @@
 
 void h_configure(HConfig &cfg) {
   cfg.property = "C09"; cfg.name = "c09_helpers";
-  cfg.rule = "case = TopoSpec (symmetric, corpus XML with I/O) optionally followed by a restrict (CPU-less NUMA nodes, asymmetry) + 30 query sets x {covering, largest objects, inside/covering iterators, cpuset<->nodeset, singlify_per_core} + 30 ancestor pairs + 10 closest-objects queries + same-locality, type/depth lookups + 20 hwloc_distrib calls; non-trivial = a query set straddles at least 2 siblings or the topology is asymmetric; distinct by hash of the decoded case";
-  cfg.head_len = 900; cfg.op_len = 1; cfg.max_ops = 1; cfg.leak_check = false;
+  cfg.rule = "case = TopoSpec (symmetric, corpus XML with I/O) optionally followed by a restrict (CPU-less NUMA nodes, asymmetry) + 30 query sets x {covering, largest objects, inside/covering iterators, cpuset<->nodeset, singlify_per_core} + 30 ancestor pairs + 10 closest-objects queries + same-locality, type/depth lookups + 20 hwloc_distrib calls + child/cache covering, shared cache, first largest object, ancestors by depth/type, next_child, PU/NUMA by os_index, below-by-type chains, cache/group depth lookups, PCI/bridge/OS-device helpers, info lookup; non-trivial = a query set straddles at least 2 siblings or the topology is asymmetric; distinct by hash of the decoded case";
+  cfg.head_len = 1400; cfg.op_len = 1; cfg.max_ops = 1; cfg.leak_check = false;
 }
 
 void h_run(Case &c) {
@@ -75,6 +75,83 @@ void h_run(Case &c) {
     if (hwloc_obj_type_is_normal(T)) { int below = hwloc_get_type_or_below_depth(t, T), above = hwloc_get_type_or_above_depth(t, T);
       if (td >= 0) CHECK(c, below == td && above == td, "type_depth", "type_or_below/above_depth(%s) = %d/%d, type depth %d", hwloc_obj_type_string(T), below, above, td);
       else if (td == HWLOC_TYPE_DEPTH_UNKNOWN) CHECK(c, below >= 0 && above >= 0 && above < below && below < topodepth, "type_depth", "absent type %s: or_above %d / or_below %d", hwloc_obj_type_string(T), above, below); } }
+  // ---- further helpers, each against a brute-force definition over the child links ----
+  auto is_dc = [](hwloc_obj_type_t ty) { return ty >= HWLOC_OBJ_L1CACHE && ty <= HWLOC_OBJ_L5CACHE; };
+  for (int q = 0; q < 16; q++) {
+    // child covering: the (first) normal child whose cpuset includes S, NULL if none or S is empty
+    hwloc_obj_t p = normal[d.raw() % normal.size()]; USet S; int m = d.range(0, 3);
+    if (m == 0) S = CS[normal[d.raw() % normal.size()]]; else if (m == 1 && p->arity) { hwloc_obj_t ch = p->children[d.raw() % p->arity]; for (auto x : CS[ch]) if (d.chance(2, 3)) S.insert(x); } else if (m == 2) { for (auto x : CS[p]) if (d.chance(1, 3)) S.insert(x); }
+    hwloc_bitmap_t bs = hwloc_bitmap_alloc(); for (auto x : S) hwloc_bitmap_set(bs, x); std::string Ss = ustr(S);
+    { hwloc_obj_t e = NULL; if (!S.empty()) for (hwloc_obj_t ch = p->first_child; ch && !e; ch = ch->next_sibling) if (subset(S, CS[ch])) e = ch; hwloc_obj_t g = hwloc_get_child_covering_cpuset(t, bs, p);
+      CHECK(c, g == e, "child_covering", "child_covering_cpuset({%s}, %s) = %s, expected %s", Ss.c_str(), oid(p).c_str(), g ? oid(g).c_str() : "NULL", e ? oid(e).c_str() : "NULL"); }
+    // first data/unified cache covering S = first such cache on the parent chain of the covering object
+    { hwloc_obj_t best = NULL; if (!S.empty()) for (auto o : normal) if (subset(S, CS[o]) && (!best || o->depth > best->depth)) best = o; while (best && !is_dc(best->type)) best = best->parent; hwloc_obj_t g = hwloc_get_cache_covering_cpuset(t, bs);
+      CHECK(c, g == best, "cache_covering", "cache_covering_cpuset({%s}) = %s, expected %s", Ss.c_str(), g ? oid(g).c_str() : "NULL", best ? oid(best).c_str() : "NULL"); }
+    // first largest object: NULL iff S misses the topology, else included in S with a parent that is not
+    { hwloc_obj_t g = hwloc_get_first_largest_obj_inside_cpuset(t, bs); if (disjoint(S, rootcs)) CHECK(c, g == NULL, "first_largest", "S={%s} misses the topology but first_largest returned %s", Ss.c_str(), oid(g).c_str());
+      else { CHECK(c, g && subset(CS[g], S) && !CS[g].empty(), "first_largest", "first_largest_obj_inside_cpuset({%s}) = %s is not inside the set", Ss.c_str(), g ? oid(g).c_str() : "NULL"); if (g->parent) CHECK(c, !subset(CS[g->parent], S), "first_largest", "first_largest_obj_inside_cpuset({%s}) = %s whose parent is inside the set too", Ss.c_str(), oid(g).c_str()); } }
+    hwloc_bitmap_free(bs);
+  }
+  for (int q = 0; q < 16; q++) { hwloc_obj_t o = all[d.raw() % all.size()];
+    // shared cache: first data/unified cache ancestor whose cpuset differs from the object's; NULL for objects without sets
+    { hwloc_obj_t e = NULL; if (o->cpuset) for (hwloc_obj_t a = o->parent; a && !e; a = a->parent) if (is_dc(a->type) && CS[a] != CS[o]) e = a; hwloc_obj_t g = hwloc_get_shared_cache_covering_obj(t, o);
+      CHECK(c, g == e, "shared_cache", "shared_cache_covering_obj(%s) = %s, expected %s", oid(o).c_str(), g ? oid(g).c_str() : "NULL", e ? oid(e).c_str() : "NULL"); }
+    // ancestor by type (strict ancestors, lowest first) and by depth (normal objects)
+    { hwloc_obj_type_t ty = (hwloc_obj_type_t)d.range(0, HWLOC_OBJ_TYPE_MAX - 1); hwloc_obj_t e = o->parent; while (e && e->type != ty) e = e->parent; hwloc_obj_t g = hwloc_get_ancestor_obj_by_type(t, ty, o);
+      CHECK(c, g == e, "ancestor", "ancestor_obj_by_type(%s, %s) = %s, expected %s", hwloc_obj_type_string(ty), oid(o).c_str(), g ? oid(g).c_str() : "NULL", e ? oid(e).c_str() : "NULL");
+      if (is_normal(o->type)) { int dp = d.range(0, topodepth - 1); hwloc_obj_t e2 = o; while (e2 && e2->depth != dp) e2 = e2->parent; hwloc_obj_t g2 = hwloc_get_ancestor_obj_by_depth(t, dp, o);
+        // when the parent chain skips that depth (asymmetric trees) the code returns the next ancestor above although the documentation says NULL: outside the property, only "never a non-ancestor, never deeper than asked" is asserted there
+        if (e2) CHECK(c, g2 == e2, "ancestor", "ancestor_obj_by_depth(%d, %s) = %s, expected %s", dp, oid(o).c_str(), g2 ? oid(g2).c_str() : "NULL", oid(e2).c_str());
+        else if (g2) { bool anc = false; for (hwloc_obj_t a = o; a; a = a->parent) if (a == g2) anc = true; CHECK(c, anc && g2->depth < dp, "ancestor", "ancestor_obj_by_depth(%d, %s) = %s is not an ancestor above that depth", dp, oid(o).c_str(), oid(g2).c_str()); } } }
+    // next_child enumerates the normal, memory, I/O and Misc children lists in that order
+    { std::vector<hwloc_obj_t> e, g; for (hwloc_obj_t x = o->first_child; x; x = x->next_sibling) e.push_back(x); for (hwloc_obj_t x = o->memory_first_child; x; x = x->next_sibling) e.push_back(x); for (hwloc_obj_t x = o->io_first_child; x; x = x->next_sibling) e.push_back(x); for (hwloc_obj_t x = o->misc_first_child; x; x = x->next_sibling) e.push_back(x);
+      hwloc_obj_t x = NULL; while ((x = hwloc_get_next_child(t, o, x)) && g.size() <= e.size()) g.push_back(x); CHECK(c, g == e, "next_child", "next_child(%s) enumerates %zu children, the four lists hold %zu", oid(o).c_str(), g.size(), e.size()); }
+    // non-I/O ancestor of an I/O object: the closest ancestor that has sets
+    if (is_io(o->type)) { hwloc_obj_t e = o; while (e && !e->cpuset) e = e->parent; CHECK(c, hwloc_get_non_io_ancestor_obj(t, o) == e && e, "non_io_ancestor", "non_io_ancestor_obj(%s) mismatch", oid(o).c_str()); }
+    // info lookup: the first pair with that name
+    if (o->infos.count) { unsigned k = d.raw() % o->infos.count; const char *nm = o->infos.array[k].name, *e = NULL; for (unsigned i = 0; i < o->infos.count && !e; i++) if (!strcmp(o->infos.array[i].name, nm)) e = o->infos.array[i].value; const char *g = hwloc_obj_get_info_by_name(o, nm);
+      CHECK(c, g == e, "info_by_name", "obj_get_info_by_name(%s, %s) = %s, the first pair with that name holds %s", oid(o).c_str(), qstr(nm).c_str(), qstr(g).c_str(), qstr(e).c_str()); CHECK(c, hwloc_obj_get_info_by_name(o, "no such name \x01") == NULL, "info_by_name", "unknown info name found"); }
+  }
+  // PU / NUMA node by os_index
+  { unsigned maxos = 0; for (auto o : all) if ((o->type == HWLOC_OBJ_PU || o->type == HWLOC_OBJ_NUMANODE) && o->os_index != HWLOC_UNKNOWN_INDEX && o->os_index > maxos) maxos = o->os_index;
+    for (int q = 0; q < 12; q++) { unsigned x = d.raw() % (maxos + 3); hwloc_obj_t ep = NULL, en = NULL; for (auto o : all) { if (o->type == HWLOC_OBJ_PU && o->os_index == x) ep = o; if (o->type == HWLOC_OBJ_NUMANODE && o->os_index == x) en = o; }
+      CHECK(c, hwloc_get_pu_obj_by_os_index(t, x) == ep, "by_os_index", "pu_obj_by_os_index(%u) mismatch", x); CHECK(c, hwloc_get_numanode_obj_by_os_index(t, x) == en, "by_os_index", "numanode_obj_by_os_index(%u) mismatch", x); } }
+  // chains "idx-th object of type T below the previous one" (objects with an empty cpuset are skipped by the inside-cpuset iterators)
+  { std::vector<hwloc_obj_type_t> single; for (int ty = 0; ty < HWLOC_OBJ_TYPE_MAX; ty++) { int td = hwloc_get_type_depth(t, (hwloc_obj_type_t)ty); if (td >= 0 || td == HWLOC_TYPE_DEPTH_NUMANODE) single.push_back((hwloc_obj_type_t)ty); }
+    auto below = [&](hwloc_obj_t from, hwloc_obj_type_t ty, unsigned idx) -> hwloc_obj_t { if (!from) return NULL; int td = hwloc_get_type_depth(t, ty); unsigned k = 0; for (unsigned i = 0; i < hwloc_get_nbobjs_by_depth(t, td); i++) { hwloc_obj_t o = hwloc_get_obj_by_depth(t, td, i); if (!CS[o].empty() && subset(CS[o], CS[from])) { if (k == idx) return o; k++; } } return NULL; };
+    for (int q = 0; q < 10; q++) { int nr = d.range(1, 3); hwloc_obj_type_t tv[3]; unsigned iv[3]; hwloc_obj_t e = root; std::string ch;
+      for (int i = 0; i < nr; i++) { tv[i] = single[d.raw() % single.size()]; iv[i] = d.range(0, 3); ch += strf(" %s:%u", hwloc_obj_type_string(tv[i]), iv[i]); }
+      for (int i = 0; i < nr; i++) e = below(e, tv[i], iv[i]); hwloc_obj_t g = hwloc_get_obj_below_array_by_type(t, nr, tv, iv);
+      CHECK(c, g == e, "below_by_type", "obj_below_array_by_type(%s) = %s, expected %s", ch.c_str(), g ? oid(g).c_str() : "NULL", e ? oid(e).c_str() : "NULL");
+      if (nr >= 2) { int n1 = hwloc_get_nbobjs_by_type(t, tv[0]); unsigned i1 = n1 > 0 ? d.raw() % (n1 + 1) : 0; hwloc_obj_t o1 = hwloc_get_obj_by_type(t, tv[0], i1), e2 = o1 ? below(o1, tv[1], iv[1]) : NULL, g2 = hwloc_get_obj_below_by_type(t, tv[0], i1, tv[1], iv[1]);
+        CHECK(c, g2 == e2, "below_by_type", "obj_below_by_type(%s:%u, %s:%u) = %s, expected %s", hwloc_obj_type_string(tv[0]), i1, hwloc_obj_type_string(tv[1]), iv[1], g2 ? oid(g2).c_str() : "NULL", e2 ? oid(e2).c_str() : "NULL"); } } }
+  // cache depth lookups: a level found for (level, type) holds caches of that level whose type is the requested one or Unified;
+  // an existing data/unified level with exactly these attributes is found (only the sign of the answer is asserted when several levels match)
+  for (unsigned lvl = 1; lvl <= 5; lvl++) for (int cty = -1; cty <= 2; cty++) { int g = hwloc_get_cache_type_depth(t, lvl, (hwloc_obj_cache_type_t)cty); std::vector<int> match;
+    for (int dp = 0; dp < topodepth; dp++) { hwloc_obj_t o = hwloc_get_obj_by_depth(t, dp, 0); if (is_dc(o->type) && o->attr->cache.depth == lvl && (cty == -1 || (int)o->attr->cache.type == cty || o->attr->cache.type == HWLOC_OBJ_CACHE_UNIFIED)) match.push_back(dp); }
+    if (match.empty()) CHECK(c, g == HWLOC_TYPE_DEPTH_UNKNOWN, "cache_type_depth", "cache_type_depth(L%u, type %d) = %d although no data/unified cache level matches", lvl, cty, g);
+    else if (match.size() == 1 || cty != -1) CHECK(c, g == match[0], "cache_type_depth", "cache_type_depth(L%u, type %d) = %d, the matching level is at depth %d", lvl, cty, g, match[0]);
+    else CHECK(c, g == HWLOC_TYPE_DEPTH_MULTIPLE, "cache_type_depth", "cache_type_depth(L%u, any type) = %d although %zu levels match", lvl, g, match.size()); }
+  // Group levels are told apart by their depth attribute; without attributes the lookup is hwloc_get_type_depth()
+  { for (int ty = 0; ty < HWLOC_OBJ_TYPE_MAX; ty++) CHECK(c, hwloc_get_type_depth_with_attr(t, (hwloc_obj_type_t)ty, NULL, 0) == hwloc_get_type_depth(t, (hwloc_obj_type_t)ty), "type_depth_attr", "type_depth_with_attr(%s, NULL) differs from type_depth", hwloc_obj_type_string((hwloc_obj_type_t)ty));
+    if (hwloc_get_type_depth(t, HWLOC_OBJ_GROUP) == HWLOC_TYPE_DEPTH_MULTIPLE) for (int dp = 0; dp < topodepth; dp++) { hwloc_obj_t o = hwloc_get_obj_by_depth(t, dp, 0); if (o->type != HWLOC_OBJ_GROUP) continue; union hwloc_obj_attr_u a; memset(&a, 0, sizeof a); a.group.depth = o->attr->group.depth; int g = hwloc_get_type_depth_with_attr(t, HWLOC_OBJ_GROUP, &a, sizeof a);
+      int e = -1; for (int d2 = 0; d2 < topodepth && e < 0; d2++) { hwloc_obj_t o2 = hwloc_get_obj_by_depth(t, d2, 0); if (o2->type == HWLOC_OBJ_GROUP && o2->attr->group.depth == a.group.depth) e = d2; }
+      CHECK(c, g == e, "type_depth_attr", "type_depth_with_attr(Group, depth %u) = %d, the first Group level with that attribute is at depth %d", a.group.depth, g, e); nontrivial = true; } }
+  // I/O helpers
+  { std::vector<hwloc_obj_t> pci, osd, br; for (unsigned i = 0; i < hwloc_get_nbobjs_by_depth(t, HWLOC_TYPE_DEPTH_PCI_DEVICE); i++) pci.push_back(hwloc_get_obj_by_depth(t, HWLOC_TYPE_DEPTH_PCI_DEVICE, i)); for (unsigned i = 0; i < hwloc_get_nbobjs_by_depth(t, HWLOC_TYPE_DEPTH_OS_DEVICE); i++) osd.push_back(hwloc_get_obj_by_depth(t, HWLOC_TYPE_DEPTH_OS_DEVICE, i)); for (unsigned i = 0; i < hwloc_get_nbobjs_by_depth(t, HWLOC_TYPE_DEPTH_BRIDGE); i++) br.push_back(hwloc_get_obj_by_depth(t, HWLOC_TYPE_DEPTH_BRIDGE, i));
+    std::vector<hwloc_obj_t> g; hwloc_obj_t x = NULL; while ((x = hwloc_get_next_pcidev(t, x)) && g.size() <= pci.size()) g.push_back(x); CHECK(c, g == pci, "io_iter", "next_pcidev enumerates %zu devices, the PCI level holds %zu", g.size(), pci.size());
+    g.clear(); x = NULL; while ((x = hwloc_get_next_osdev(t, x)) && g.size() <= osd.size()) g.push_back(x); CHECK(c, g == osd, "io_iter", "next_osdev enumerates %zu devices, the level holds %zu", g.size(), osd.size());
+    g.clear(); x = NULL; while ((x = hwloc_get_next_bridge(t, x)) && g.size() <= br.size()) g.push_back(x); CHECK(c, g == br, "io_iter", "next_bridge enumerates %zu bridges, the level holds %zu", g.size(), br.size());
+    for (int q = 0; q < 8 && !pci.empty(); q++) { hwloc_obj_t o = pci[d.raw() % pci.size()]; auto &a = o->attr->pcidev; unsigned dom = a.domain, bus = a.bus, dev = a.dev, fn = a.func; int mut = d.range(0, 5); if (mut == 1) fn ^= 1; else if (mut == 2) bus ^= 0x80; else if (mut == 3) dom += 1;
+      hwloc_obj_t e = NULL; for (auto p : pci) if (!e && p->attr->pcidev.domain == dom && p->attr->pcidev.bus == bus && p->attr->pcidev.dev == dev && p->attr->pcidev.func == fn) e = p;
+      CHECK(c, hwloc_get_pcidev_by_busid(t, dom, bus, dev, fn) == e, "pci_busid", "pcidev_by_busid(%04x:%02x:%02x.%x) mismatch", dom, bus, dev, fn);
+      std::string s1 = strf("%04x:%02x:%02x.%01x", dom, bus, dev, fn); CHECK(c, hwloc_get_pcidev_by_busidstring(t, s1.c_str()) == e, "pci_busid", "pcidev_by_busidstring(%s) mismatch", s1.c_str());
+      if (dom == 0) { std::string s2 = strf("%02x:%02x.%01x", bus, dev, fn); CHECK(c, hwloc_get_pcidev_by_busidstring(t, s2.c_str()) == e, "pci_busid", "pcidev_by_busidstring(%s) mismatch", s2.c_str()); }
+      // (a PCI device need not lie inside its parent bridge's bus range: the stored file 32em64t-2n8c2t-pci-normalio.xml has 0000:04:00.0 below [84-84])
+      nontrivial = true; }
+    for (int q = 0; q < 6 && !br.empty(); q++) { hwloc_obj_t b = br[d.raw() % br.size()]; auto &ba = b->attr->bridge; if (ba.downstream_type != HWLOC_OBJ_BRIDGE_PCI) continue; unsigned dom = ba.downstream.pci.domain + (d.chance(1, 4) ? 1 : 0); int bus = d.chance(1, 2) ? (int)ba.downstream.pci.secondary_bus - 1 + d.range(0, 2) : (int)ba.downstream.pci.subordinate_bus - 1 + d.range(0, 2); if (bus < 0 || bus > 255) continue;
+      int e = dom == ba.downstream.pci.domain && bus >= ba.downstream.pci.secondary_bus && bus <= ba.downstream.pci.subordinate_bus; CHECK(c, hwloc_bridge_covers_pcibus(b, dom, (unsigned)bus) == e, "bridge_covers", "bridge_covers_pcibus(%s [%02x-%02x], %04x:%02x) != %d", oid(b).c_str(), ba.downstream.pci.secondary_bus, ba.downstream.pci.subordinate_bus, dom, bus, e); }
+    errno = 0; CHECK(c, hwloc_get_pcidev_by_busidstring(t, "zz:1") == NULL && errno == EINVAL, "pci_busid", "malformed bus id string accepted"); }
   // hwloc_distrib
   for (int q = 0; q < 20; q++) { std::vector<hwloc_obj_t> roots; int rm = d.range(0, 3);
     if (rm == 0) roots.push_back(root); else { int dp = d.range(0, topodepth - 1); for (unsigned i = 0; i < hwloc_get_nbobjs_by_depth(t, dp); i++) if (d.chance(2, 3)) roots.push_back(hwloc_get_obj_by_depth(t, dp, i)); if (roots.empty()) roots.push_back(hwloc_get_obj_by_depth(t, dp, 0)); }
